@@ -16,5 +16,5 @@ Separate Extraction
   Mini.Rewrites.apply_rewrite Mini.Rewrites.applicable Mini.Rewrites.add_sites Mini.Rewrites.phrase_ids
   Mini.Rewrites.use_all_sites Mini.Rewrites.conc_ids Mini.Rewrites.use_occs_of_phrase Mini.Rewrites.idents_program
   Mini.Rewrites.block_ids Mini.Rewrites.lit_idents Mini.Faults.sub_idents Mini.Faults.oc_conc
-  Mini.Faults.sub_candidates Mini.Faults.call_candidates
+  Mini.Faults.sub_candidates Mini.Faults.call_candidates Mini.Faults.agg_candidates
   Mini.Syntax.nids_dunit.
